@@ -181,7 +181,13 @@ def gen_history(rng, max_steps=25):
             ver["vid"] = nextvid[p]
             nextvid[p] += 1
             e = rng.random()
-            if e < 0.25:            # rename only: new member names
+            if rng.random() < 0.15:  # the edit is undone: exactly the text of the file on disk again (same version)
+                ver = dict(disk[p])
+                nextvid[p] -= 1
+                e = 2.0
+            if e > 1.0:
+                pass
+            elif e < 0.25:          # rename only: new member names
                 pass
             elif e < 0.40:          # insert a declaration
                 ver["nf"] = min(3, cur["nf"] + 1)
@@ -195,7 +201,7 @@ def gen_history(rng, max_steps=25):
                 ver["ref"] = rng.randrange(n)
             else:                   # break the syntax
                 ver["broken"] = rng.choice(["paren", "string"])
-            if cur["broken"] and rng.random() < 0.7:
+            if e <= 1.0 and cur["broken"] and rng.random() < 0.7:
                 ver["broken"] = None    # repair
             opened[p] = ver
             evs.append(("C", p, ver))
